@@ -1,4 +1,5 @@
 import AtsimModel.Model.Ini
+import AtsimModel.Lemmas.IniOps
 /-!
 # C14 — --override-item / --add-item / --remove-item equal editing the file by hand
 
@@ -180,8 +181,8 @@ theorem C14_add_appends (ini : Ini) (s k v : String) (hs : s ≠ "Variables") (h
 /-- **remove**: the item is gone afterwards -/
 theorem C14_remove_removes (ini : Ini) (s k : String) (hs : s ≠ "Variables") (h : hasOption currentCfg ini s k = true) :
     ∃ ini', applyOp currentCfg ini (.remove s k) = .ok ini' ∧ lookup ini' s k = none := by
-  have _ := hs
-  simp only [applyOp, h, Bool.not_true, Bool.false_eq_true, if_false]
+  have hs' : (s == "Variables") = false := by simpa using hs
+  simp only [applyOp, h, hs', Bool.not_true, Bool.false_eq_true, if_false]
   split
   · refine ⟨_, rfl, ?_⟩
     unfold lookup
@@ -218,12 +219,14 @@ theorem C14_other_sections_untouched (ini ini' : Ini) (op : Op) (s' : String) (h
     split at h
     · cases h
     · split at h
-      · cases h
-        dsimp only
-        rw [find?_filter_ne _ _ _ hs]
-        exact find?_secmap_ne _ _ _ (fun kvs => kvs.filter (fun p => p.1 != norm k)) hs
-      · cases h
-        exact find?_secmap_ne _ _ _ (fun kvs => kvs.filter (fun p => p.1 != norm k)) hs
+      · cases h; rfl
+      · split at h
+        · cases h
+          dsimp only
+          rw [find?_filter_ne _ _ _ hs]
+          exact find?_secmap_ne _ _ _ (fun kvs => kvs.filter (fun p => p.1 != norm k)) hs
+        · cases h
+          exact find?_secmap_ne _ _ _ (fun kvs => kvs.filter (fun p => p.1 != norm k)) hs
   | add s k v =>
     dsimp only at hs
     simp only [applyOp] at h
@@ -322,5 +325,194 @@ theorem C14_shipped_list_witness :
     listItems shippedCfg ⟨[("Pair", [("A-B", "x")])], [("v", "1")]⟩ = [("Pair", "A-B", "x"), ("Pair", "v", "1")] ∧
     listItems currentCfg ⟨[("Pair", [("A-B", "x")])], [("v", "1")]⟩ = [("Pair", "A-B", "x"), ("Variables", "v", "1")] := by
   decide
+
+/-! ## `[Variables]` entries are items too -/
+
+/-- **remove** of a variable: it is gone afterwards, the sections are untouched -/
+theorem C14_remove_variable (ini : Ini) (k : String) (h : hasOption currentCfg ini "Variables" k = true) :
+    ∃ ini', applyOp currentCfg ini (.remove "Variables" k) = .ok ini' ∧ assocGet ini'.vars (norm k) = none ∧ ini'.sections = ini.sections := by
+  refine ⟨{ ini with vars := ini.vars.filter (fun p => p.1 != norm k) }, by simp [applyOp, h], ?_, rfl⟩
+  exact assocGet_filter_ne _ _
+
+/-! ## The code itself: `ConfigParser._init_config_parser` regenerated from the source
+
+`Atsim.Gen.Logic.apply_overrides` is the override / removal / addition part of `_init_config_parser` as `translator/py2lean_logic.py` produces it on every run: the loop
+over `overrides` (refusal of an item that does not exist, `value is None` = remove the option and then the section when it has become empty, otherwise `_set_value`),
+then the loop over `additional` (refusal of an item that exists, `add_section` unless the section exists or is the default section, `_set_value`).  The raw parser's
+operations are parameters of the translated function; with the model's operations (`Lemmas/IniOps.lean`) it computes, for EVERY file content and EVERY pair of
+operation lists, exactly the model's `applyOps` - the function all theorems above are about. -/
+
+section CodeTie
+open Atsim.Gen.Logic Atsim.IniOps
+
+
+/-- the model's result as the code reports it -/
+def liftR (x : Except IniErr Ini) : Except OvErr IniRec :=
+  match x with
+  | .ok r => .ok (wrap r)
+  | .error e => .error (errMap e)
+
+theorem filter_ne_variables (l : List (String × List KV)) (hnv : ∀ p ∈ l, p.1 ≠ "Variables") :
+    l.filter (fun p => p.1 != "Variables") = l := by
+  rw [List.filter_eq_self]
+  intro p hp
+  simpa using hnv p hp
+
+theorem length_int_beq_zero {α : Type} (l : List α) : (((l.length : Nat) : Int) == (0 : Int)) = l.isEmpty := by
+  cases l <;> simp
+  omega
+
+theorem loop1_step (cadd cov : List OvRec) (ini : Ini) (hnv : ∀ p ∈ ini.sections, p.1 ≠ "Variables")
+    (o : Op) (ho : isEdit o = true) (rest : List OvRec) :
+    apply_overrides_loop1 hasOptionR hasSectionR sectionKeysR removeOptionR removeSectionR addSectionR setValueR cadd (wrap ini) cov (toOv o :: rest) =
+      match applyOp currentCfg ini o with
+      | .ok ini' => apply_overrides_loop1 hasOptionR hasSectionR sectionKeysR removeOptionR removeSectionR addSectionR setValueR cadd (wrap ini') cov rest
+      | .error e => .error (errMap e) := by
+  cases o with
+  | add s k v => simp [isEdit] at ho
+  | override s k v =>
+    rw [apply_overrides_loop1]
+    by_cases h : hasOption currentCfg ini s k = true
+    · by_cases hs : s = "Variables"
+      · subst hs
+        simp [toOv, hasOptionR, wrap, applyOp, setValueR, andThen, h]
+      · simp [toOv, hasOptionR, wrap, applyOp, setValueR, andThen, h, hs]
+    · simp [toOv, hasOptionR, wrap, applyOp, h, errMap]
+  | remove s k =>
+    rw [apply_overrides_loop1]
+    by_cases h : hasOption currentCfg ini s k = true
+    · by_cases hs : s = "Variables"
+      · subst hs
+        simp [toOv, hasOptionR, wrap, applyOp, h, removeOptionR, removeSectionR, sectionKeysR,
+          filter_ne_variables _ hnv]
+        exact ite_self _
+      · simp only [toOv, hasOptionR, wrap, applyOp, h, removeOptionR, removeSectionR, sectionKeysR,
+          length_int_beq_zero, hs, beq_iff_eq, if_false, if_true, Option.isNone_none, Bool.not_true]
+        split <;> simp_all
+    · simp [toOv, hasOptionR, wrap, applyOp, h, errMap]
+
+theorem loop2_step (cadd cov : List OvRec) (ini : Ini)
+    (o : Op) (ho : isAdd o = true) (rest : List OvRec) :
+    apply_overrides_loop2 hasOptionR hasSectionR sectionKeysR removeOptionR removeSectionR addSectionR setValueR cadd (wrap ini) cov (toOv o :: rest) =
+      match applyOp currentCfg ini o with
+      | .ok ini' => apply_overrides_loop2 hasOptionR hasSectionR sectionKeysR removeOptionR removeSectionR addSectionR setValueR cadd (wrap ini') cov rest
+      | .error e => .error (errMap e) := by
+  cases o with
+  | override s k v => simp [isAdd] at ho
+  | remove s k => simp [isAdd] at ho
+  | add s k v =>
+    rw [apply_overrides_loop2]
+    by_cases h : hasOption currentCfg ini s k = true
+    · simp [toOv, hasOptionR, wrap, applyOp, h, errMap]
+    · by_cases hs : s = "Variables"
+      · subst hs
+        simp [toOv, hasOptionR, wrap, applyOp, setValueR, andThen, h]
+      · by_cases hsec : (ini.sections.any fun p => p.1 == s) = true
+        · simp [toOv, hasOptionR, wrap, applyOp, setValueR, andThen, h, hs, hasSectionR, hsec]
+        · simp [toOv, hasOptionR, wrap, applyOp, setValueR, andThen, h, hs, hasSectionR, hsec, addSectionR]
+
+theorem no_variables_step (ini ini' : Ini) (op : Op) (hnv : ∀ p ∈ ini.sections, p.1 ≠ "Variables")
+    (h : applyOp currentCfg ini op = .ok ini') : ∀ p ∈ ini'.sections, p.1 ≠ "Variables" := by
+  have hmap : ∀ (l : List (String × List KV)) (f : String × List KV → String × List KV), (∀ p, (f p).1 = p.1) →
+      (∀ p ∈ l, p.1 ≠ "Variables") → ∀ p ∈ l.map f, p.1 ≠ "Variables" := by
+    intro l f hf hl p hp
+    obtain ⟨q, hq, rfl⟩ := List.mem_map.1 hp
+    rw [hf]; exact hl q hq
+  cases op with
+  | override s k v =>
+    simp only [applyOp] at h
+    split at h
+    · cases h
+    · split at h
+      · cases h; exact hnv
+      · cases h
+        apply hmap _ _ _ hnv
+        intro p; split <;> rfl
+  | remove s k =>
+    simp only [applyOp] at h
+    split at h
+    · cases h
+    · split at h
+      · cases h; exact hnv
+      · have hm : ∀ p ∈ ini.sections.map (fun (x : String × List KV) => if x.1 == s then (x.1, x.2.filter (fun p => p.1 != norm k)) else (x.1, x.2)), p.1 ≠ "Variables" := by
+          apply hmap _ _ _ hnv
+          intro p; split <;> rfl
+        split at h
+        · cases h
+          intro p hp
+          exact hm p (List.mem_filter.1 hp).1
+        · cases h; exact hm
+  | add s k v =>
+    simp only [applyOp] at h
+    split at h
+    · cases h
+    · split at h
+      · cases h; exact hnv
+      · rename_i hs
+        cases h
+        apply hmap
+        · intro p; split <;> rfl
+        · split
+          · exact hnv
+          · intro p hp
+            rcases List.mem_append.1 hp with hp | hp
+            · exact hnv p hp
+            · simp at hp; subst hp; simpa using hs
+
+theorem loop2_all (cadd cov : List OvRec) (ads : List Op) (had : ∀ o ∈ ads, isAdd o = true) (ini : Ini) :
+    apply_overrides_loop2 hasOptionR hasSectionR sectionKeysR removeOptionR removeSectionR addSectionR setValueR cadd (wrap ini) cov (ads.map toOv) =
+      liftR (ads.foldlM (applyOp currentCfg) ini) := by
+  induction ads generalizing ini with
+  | nil => simp [apply_overrides_loop2, liftR, pure, Except.pure]
+  | cons o ads ih =>
+    rw [List.map_cons, loop2_step _ _ _ _ (had o (List.mem_cons_self ..)), List.foldlM_cons]
+    cases hop : applyOp currentCfg ini o with
+    | error e => simp [liftR, bind, Except.bind]
+    | ok ini' =>
+      simp only [bind, Except.bind]
+      exact ih (fun o' ho' => had o' (List.mem_cons_of_mem _ ho')) ini'
+
+theorem loop1_all (cadd cov : List OvRec) (ovs : List Op) (hov : ∀ o ∈ ovs, isEdit o = true) (ini : Ini)
+    (hnv : ∀ p ∈ ini.sections, p.1 ≠ "Variables") :
+    apply_overrides_loop1 hasOptionR hasSectionR sectionKeysR removeOptionR removeSectionR addSectionR setValueR cadd (wrap ini) cov (ovs.map toOv) =
+      match ovs.foldlM (applyOp currentCfg) ini with
+      | .ok r => apply_overrides_loop2 hasOptionR hasSectionR sectionKeysR removeOptionR removeSectionR addSectionR setValueR cadd (wrap r) cov cadd
+      | .error e => .error (errMap e) := by
+  induction ovs generalizing ini with
+  | nil => simp [apply_overrides_loop1, pure, Except.pure]
+  | cons o ovs ih =>
+    rw [List.map_cons, loop1_step _ _ _ hnv _ (hov o (List.mem_cons_self ..)), List.foldlM_cons]
+    cases hop : applyOp currentCfg ini o with
+    | error e => simp [bind, Except.bind]
+    | ok ini' =>
+      simp only [bind, Except.bind]
+      exact ih (fun o' ho' => hov o' (List.mem_cons_of_mem _ ho')) ini' (no_variables_step ini ini' o hnv hop)
+
+end CodeTie
+
+open Atsim.Gen.Logic Atsim.IniOps in
+/-- **code tie**: the code's two loops are `applyOps` -/
+theorem C14_code_apply_overrides (ini : Ini) (ovs ads : List Op)
+    (hnv : ∀ p ∈ ini.sections, p.1 ≠ "Variables")
+    (hov : ∀ o ∈ ovs, isEdit o = true) (had : ∀ o ∈ ads, isAdd o = true) :
+    apply_overrides hasOptionR hasSectionR sectionKeysR removeOptionR removeSectionR addSectionR setValueR (wrap ini) (ovs.map toOv) (ads.map toOv) =
+      match applyOps currentCfg ini ovs ads with
+      | .ok r => .ok (wrap r)
+      | .error e => .error (errMap e) := by
+  rw [apply_overrides, loop1_all _ _ _ hov _ hnv]
+  simp only [applyOps, List.foldlM_append]
+  cases h1 : ovs.foldlM (applyOp currentCfg) ini with
+  | error e => simp [bind, Except.bind]
+  | ok r =>
+    simp only [bind, Except.bind]
+    rw [loop2_all _ _ _ had]
+    rfl
+
+open Atsim.IniOps in
+/-- the hypothesis of the tie is an invariant: the reader never creates a section called `Variables`, and no operation does -/
+theorem C14_no_variables_section (ini ini' : Ini) (op : Op) (hnv : ∀ p ∈ ini.sections, p.1 ≠ "Variables")
+    (h : applyOp currentCfg ini op = .ok ini') : ∀ p ∈ ini'.sections, p.1 ≠ "Variables" :=
+  no_variables_step ini ini' op hnv h
+
 
 end Atsim.C14
